@@ -55,7 +55,9 @@ ASSUMPTIONS = [
     "specification supplies input space, verdict oracle and buffer protocol",
     "memory safety is decided through the buffer protocol (every published length = number of initialising writes <= "
     "capacity; every slice starts inside the array) and through crashes; a silent out-of-bounds read that neither "
-    "crashes nor breaks the protocol is invisible (no miri run: the toolchain in this sandbox has no miri component)",
+    "crashes nor breaks the protocol is invisible; in the thorough tier the same front-end runs are repeated under "
+    "`cargo +nightly miri` on all single-token inputs and a sample of the emitted derivations as a stricter observer "
+    "(an assumption about miri's fidelity, not the deciding technique)",
     "the XML dumps take the source as &str; they are only exercised on inputs that are valid UTF-8 and have no "
     "diagnostics, exactly as src/main.rs does",
     "the front end runs on a thread with an 8 MiB stack (the default main-thread stack on Linux)",
@@ -65,6 +67,115 @@ ASSUMPTIONS = [
     "occur in tests/samples ([..]T, [:]T, builtins, field-init shorthand) are used in soups and token sequences only",
     "debug assertions are on (the pinned test suite builds with the dev profile as well)",
 ]
+
+
+MIRI_CARGO = """[package]
+name = "pvh_delta_miri"
+version = "0.1.0"
+edition = "2024"
+
+[workspace]
+
+[dependencies]
+penne = { path = "%s", features = ["penne_verif"] }
+"""
+
+MIRI_MAIN = r"""//! Runs the second-generation front end under miri on the inputs listed in the file given as argument
+//! (one per line, "\n" for a line feed): a stricter observer of the same runs.
+use penne::delta::{lexer, parser};
+fn run(src: &str) -> &'static str {
+    let tokens = lexer::lex(src.as_bytes(), "case.pn");
+    if tokens.errors().is_some() {
+        return "lexerr";
+    }
+    let _ = tokens.as_xml(src).count();
+    let tree = parser::parse(&tokens);
+    if tree.errors(&tokens).is_some() {
+        return "parseerr";
+    }
+    let _ = tree.as_xml(&tokens, src).count();
+    let header = tree.build_header();
+    let _ = header.as_xml(&tokens, src).count();
+    "ok"
+}
+fn main() {
+    std::panic::set_hook(Box::new(|_| {}));
+    let path = std::env::args().nth(1).expect("input file");
+    let inputs = std::fs::read_to_string(path).expect("read inputs");
+    let (mut n, mut panics) = (0, 0);
+    for line in inputs.lines() {
+        let src = line.replace("\\n", "\n");
+        eprintln!("MIRI-INPUT {n}");
+        if std::panic::catch_unwind(|| run(&src)).is_err() {
+            panics += 1;
+        }
+        n += 1;
+    }
+    println!("MIRI-DONE inputs={n} panics={panics}");
+}
+"""
+
+LEXEME = {"str": '"s"', "chr": "'a'", "bad": "`", "id": "x", "bi": "f!", "ty": "i32", "lit": "1", "suf": "1u8"}
+CONTEXT = {"top": ("", ""), "body": ("fn f ( ) { ", " }"), "stmt": ("fn f ( ) { x = ", " ; }"), "type": ("const c : ", " = 1 ;"),
+           "param": ("fn f ( ", " ) ;"), "member": ("struct S { ", " }"), "cond": ("fn f ( ) { if ", " { } }"),
+           "pubbody": ("pub fn f ( ) { ", " } fn g ( ) ;")}
+
+
+def toks_source(desc):
+    pre, post = CONTEXT[desc.get("ctx", "top")]
+    return pre + " ".join(LEXEME.get(t, t) for t in desc["toks"]) + post
+
+
+def miri_observer(rep, descs, parallel=8):
+    """Optional stricter observer (thorough tier): the same front-end runs under `cargo +nightly miri`.
+    Returns a dict for the evidence; undefined behaviour reported by miri is a VIOLATION."""
+    import shutil
+    import subprocess
+    d = os.path.join(common.WORK, "delta-miri")
+    os.makedirs(os.path.join(d, "src"), exist_ok=True)
+    open(os.path.join(d, "Cargo.toml"), "w").write(MIRI_CARGO % os.path.realpath(common.REPO))
+    open(os.path.join(d, "src", "main.rs"), "w").write(MIRI_MAIN)
+    shutil.copy(os.path.join(common.REPO, "Cargo.lock"), os.path.join(d, "Cargo.lock"))
+    env = common.env_with_tools({"MIRIFLAGS": "-Zmiri-disable-isolation"})
+    probe = subprocess.run(["cargo", "+nightly", "miri", "--version"], cwd=d, env=env, stdout=subprocess.PIPE, stderr=subprocess.STDOUT, text=True)
+    if probe.returncode != 0:
+        log("[miri] not available (%s): skipped" % probe.stdout.strip()[:120])
+        return {"available": False}
+    srcs = [toks_source(x).replace("\n", "\\n") for x in descs]
+    parts = [srcs[k::parallel] for k in range(parallel)]
+    files = []
+    for k, part in enumerate(parts):
+        f = os.path.join(d, "inputs.%d.txt" % k)
+        open(f, "w").write("\n".join(part) + "\n")
+        files.append(f)
+    t0 = time.time()
+    # build once (the first run compiles the sysroot and the crate), then run the parts in parallel
+    first = subprocess.run(["cargo", "+nightly", "miri", "run", "--offline", "--quiet", "--", files[0]], cwd=d, env=env,
+                           stdout=subprocess.PIPE, stderr=subprocess.PIPE, text=True, timeout=3000)
+    procs = [subprocess.Popen(["cargo", "+nightly", "miri", "run", "--offline", "--quiet", "--", f], cwd=d, env=env,
+                              stdout=subprocess.PIPE, stderr=subprocess.PIPE, text=True) for f in files[1:]]
+    outs = [(first.returncode, first.stdout, first.stderr)]
+    for p in procs:
+        o, e = p.communicate(timeout=3000)
+        outs.append((p.returncode, o, e))
+    inputs = panics = 0
+    ub = []
+    for k, (rc, o, e) in enumerate(outs):
+        m = __import__("re").search(r"MIRI-DONE inputs=(\d+) panics=(\d+)", o)
+        if m:
+            inputs += int(m.group(1))
+            panics += int(m.group(2))
+        if "Undefined Behavior" in e or (rc != 0 and not m):
+            last = [ln for ln in e.splitlines() if ln.startswith("MIRI-INPUT")]
+            idx = int(last[-1].split()[1]) if last else 0
+            what = next((ln for ln in e.splitlines() if "Undefined Behavior" in ln or ln.startswith("error")), "miri failed")
+            ub.append((parts[k][idx] if idx < len(parts[k]) else "?", what.strip()))
+    for src, what in ub:
+        rep.violation("delta-miri", what[:160], {"case": {"g": "src", "src": src}, "message": "miri reports: %s" % what,
+                                                 "how": "bin/check C15 --replay <this file>"})
+    log("[miri] %d inputs run under miri in %.0fs: %d caught panics, %d reports of undefined behaviour" %
+        (inputs, time.time() - t0, panics, len(ub)))
+    return {"available": True, "inputs": inputs, "caught_panics": panics, "undefined_behaviour_reports": len(ub)}
 
 
 def case_key(desc):
@@ -270,6 +381,12 @@ def run(rep, tier, seed, selftest):
             rep.note_drift("strict (capacity formulas) trace validation stops at line %d of %s" % (s["matched"] + 1, s["file"]))
     log("[time] %.0fs" % (time.time() - rep.t0))
     log("[trace] strict mode (capacity formulas of the pinned tree): %d/%d files accepted" % (strict_ok, len(strict_files)))
+    # ---- 5b. optional stricter observer -----------------------------------------------------------
+    miri = None
+    if tier == "thorough" or os.environ.get("VERIF_MIRI") == "1":
+        one = [x for x in s_desc if len(x["toks"]) <= 1]
+        some = [d_desc[k] for k in sorted(rnd.sample(range(len(d_desc)), min(2400 if tier == "thorough" else 400, len(d_desc))))]
+        miri = miri_observer(rep, one + some)
     # ---- 6. self-tests ---------------------------------------------------------------------------
     selftests = {}
     if selftest:
@@ -371,6 +488,7 @@ def run(rep, tier, seed, selftest):
         "failure_signatures": {"%s: %s" % k: len(v) for k, v in failures.items()},
         "model_checking": model,
         "selftests": selftests,
+        "miri_observer": miri,
         "exhaustive": False,
     }
     return rep.finish("exploration", coverage, ASSUMPTIONS)
